@@ -9,7 +9,7 @@ import os, re, shutil, subprocess, tempfile
 from ..ir import Program, return_sites
 from ..derive import derive, labels_of, Summaries
 from ..effects import external_effect, BARRIER_INTRINSICS
-from .. import frontend, api
+from .. import frontend, api, lanes
 
 PRIMS_TU = "src/mem/mem_primitives_lib.c"
 MIN_ROWS = 7
@@ -135,6 +135,81 @@ def structural(ck, prog, report):
             st = [i for i in f.insts() if i["op"] == "store" and labels_of(i["ops"][1], derive(f, {f.j["params"][0]["id"]: "d"}, through_int=True), None)]
             prim[f.name] = dict(stores=len(st), volatile=sum(1 for i in st if i.get("volatile")), barriers=sum(1 for i in f.insts() if is_barrier(i)))
     return out, prim
+
+
+def fill_value_rule(prog, report, select=None):
+    """'the addressed bytes hold the fill value': in the fill primitives every store into dest stores the value parameter's bytes,
+    replicated over the width of the store (byte-lane domain, sa/lanes.py); the erase entry points hand their own value parameter
+    (or the constant 0) to the primitive."""
+    out = {}
+    for f in prog.allfuncs:
+        if not (select(f) if select else (f.mod["tu"] == PRIMS_TU and f.name.startswith("mem_prim_set"))):
+            continue
+        vp = f.pnames.get("value")
+        if vp is None:
+            continue
+        env = lanes.lanes_of(f, vp["id"])
+        vw = lanes.width(vp["ty"])
+        der = derive(f, {f.j["params"][0]["id"]: "d"}, through_int=True)
+        n = bad = 0
+        for i in f.insts():
+            if i["op"] == "store" and labels_of(i["ops"][1], der, None):
+                n += 1
+                o = i["ops"][0]
+                w = i.get("size", 1)
+                l = env.get(o["id"]) if o.get("k") == "v" else (tuple(0 if ((o["v"] >> (8 * k)) & 0xFF) == 0 else None for k in range(w)) if o.get("k") == "c" else None)
+                if l is None or len(l) != w or not lanes.replicated(l, vw):
+                    bad += 1
+                    report("C18:fill-lanes:%s:store%d" % (f.name, w), "L-fill-value-in-every-lane", f.loc(i),
+                           "%s: a %d-byte store into dest does not provably hold the fill value in every byte (lanes: %s) -- the bytes written differ from the requested value for some values"
+                           % (f.name, w, ["?" if x is None else "0" if x == 0 else "%s%d" % (x[0].lower(), x[1]) for x in (l or (None,) * w)]))
+        out[f.name] = dict(stores=n, not_replicated=bad)
+    if select is None:
+        # the entry points hand the low bytes of their own value parameter (or the constant 0) to the primitive
+        for fn in rows(prog):
+            vp = fn.pnames.get("value")
+            env = lanes.lanes_of(fn, vp["id"]) if vp is not None else {}
+            for c in fn.calls():
+                name = c.get("callee") or ""
+                if not name.startswith("mem_prim_set") or len(c.get("args", ())) < 3:
+                    continue
+                a = c["args"][2]
+                ok = (a.get("k") == "c" and a["v"] == 0) or (a.get("k") == "v" and env.get(a["id"]) is not None
+                                                              and all(x == ("V", k) for k, x in enumerate(env[a["id"]])))
+                out.setdefault("entries", {})[api.base_name(fn.name)] = ok
+                if not ok:
+                    report("C18:fill-value-passed:%s" % api.base_name(fn.name), "L-fill-value-in-every-lane", fn.loc(c),
+                           "%s: the value handed to %s is not the low bytes of the function's own value parameter (or the constant 0)" % (api.base_name(fn.name), name))
+    return out
+
+
+def split_rule(prog, report, select=None):
+    """'all n bytes and no more': where a fill primitive splits its byte count into words and a remainder, the quotient (count >> k) and
+    the remainder (count & (2^k - 1)) must be taken from the same value -- otherwise 2^k*q + r is not the count that is left."""
+    out = {}
+    for f in prog.allfuncs:
+        if not (select(f) if select else (f.mod["tu"] == PRIMS_TU and f.name.startswith("mem_prim_set"))):
+            continue
+        q, r = {}, {}
+        for i in f.insts():
+            if i["op"] == "lshr" and i["ops"][1].get("k") == "c" and 1 <= i["ops"][1]["v"] <= 4 and i["ops"][0].get("k") == "v":
+                q.setdefault(i["ops"][1]["v"], []).append(i)
+            if i["op"] == "and" and i["ops"][1].get("k") == "c" and i["ops"][1]["v"] in (1, 3, 7, 15) and i["ops"][0].get("k") == "v":
+                d = f.defs.get(i["ops"][0]["id"])
+                if d is not None and d["op"] == "ptrtoint":
+                    continue          # alignment test on the address, not a count
+                r.setdefault(i["ops"][1]["v"].bit_length(), []).append(i)
+        for k in sorted(set(q) & set(r)):
+            qs = {i["ops"][0]["id"] for i in q[k]}
+            for i in r[k]:
+                ok = i["ops"][0]["id"] in qs
+                out.setdefault(f.name, []).append(dict(shift=k, remainder_of=i["ops"][0]["id"], quotient_of=sorted(qs), agree=ok))
+                if not ok:
+                    report("C18:split-disagrees:%s:k%d" % (f.name, k), "L-quotient-and-remainder-of-one-count", f.loc(i),
+                           "%s: the trailing byte count is %s & %d while the word count is %s >> %d: quotient and remainder are taken from different values, so the words and "
+                           "the tail together do not cover exactly the bytes that are left (too few bytes erased, or bytes behind the region overwritten, for an unaligned dest)"
+                           % (f.name, i["ops"][0]["id"], (1 << k) - 1, "/".join(sorted(qs)), k))
+    return out
 
 
 # ----------------------------------------------------------------------------- thorough: compiled-client inspection
@@ -264,6 +339,13 @@ def run(ck):
     out, prim = structural(ck, prog, ck.report)
     for n, r in list(out.items())[:7]:
         ck.sample(dict(entry=n, writes_into_dest=r["writes"], unprotected=r["unprotected"]))
+    fills = fill_value_rule(prog, ck.report)
+    splits = split_rule(prog, ck.report)
+    if not splits:
+        ck.fail_broken("split rule: no count >> k / count & (2^k - 1) pair found in the fill primitives")
+    nst = sum(v["stores"] for k, v in fills.items() if k != "entries")
+    if nst < 40 or len(fills) < 4 or len(fills.get("entries", {})) < 5:
+        ck.fail_broken("fill-value rule: only %d stores in %d fill primitives and %d entry points found" % (nst, len(fills) - 1, len(fills.get("entries", {}))))
     clients = None
     if ck.tier == "thorough":
         clients = client_inspection(ck, prog, ck.report)
@@ -275,7 +357,7 @@ def run(ck):
     cov = dict(explanation="Structural rule over the IR of the %d erase entry points: %d write sites into dest (stores, memset/explicit_bzero/primitive calls, followed into callees); each "
                "must be volatile, barrier-followed on every path to a success return, or done by a callee whose writes are all protected. %s"
                % (len(out), nw, "Thorough tier: clients with a dead stack/heap buffer were compiled together with the library's current sources by gcc-12 and clang-14 at -O1..-O3 with -flto and their disassembly inspected for the surviving erase (nothing is executed)." if clients is not None else "Compiled-client inspection runs in the thorough tier."),
-               obligations=nw, discharged=nw - sum(r["unprotected"] for r in out.values()), entries=out, primitives=prim, fixtures=fx, frontend=info,
+               obligations=nw, discharged=nw - sum(r["unprotected"] for r in out.values()), entries=out, primitives=prim, fill_value_lanes=fills, count_splits=splits, fixtures=fx, frontend=info,
                summary="%d entries, %d writes into dest, all volatile or barrier-protected" % (len(out), nw))
     if clients is not None:
         cov["client_inspection"] = clients
@@ -294,4 +376,16 @@ def selftest(ck):
         res[name] = dict(writes=nw, unprotected=len(bad))
         if bool(bad) != want or nw == 0:
             ck.fail_broken("fixture c18.c:%s: %d unprotected of %d writes (expected %s)" % (name, len(bad), nw, "some" if want else "none"))
+    got = []
+    fl = fill_value_rule(prog, lambda key, *a, **k: got.append(key), select=lambda f: f.name.startswith("fx_fill_"))
+    res["fill_lanes"] = fl
+    got2 = []
+    sp = split_rule(prog, lambda key, *a, **k: got2.append(key), select=lambda f: f.name.startswith("fx_split_"))
+    res["count_splits"] = sp
+    if [x["agree"] for x in sp.get("fx_split_good", [])] != [True] or [x["agree"] for x in sp.get("fx_split_other_count", [])] != [False]:
+        ck.fail_broken("fixture c18.c: split rule gave %s" % sp)
+    want = {"fx_fill_good": 0, "fx_fill_signext": 1, "fx_fill_missing_lane": 1}
+    for n, w in want.items():
+        if n not in fl or fl[n]["stores"] < 2 or fl[n]["not_replicated"] != w:
+            ck.fail_broken("fixture c18.c:%s: fill-lane rule gave %s, expected %d bad store(s)" % (n, fl.get(n), w))
     return res
